@@ -25,5 +25,10 @@ for d in sorted(glob.glob(os.path.join(ROOT, "seeded", "C*"))):
     res[name] = {"patch": os.path.relpath(patch, ROOT), "checks": rcs, "caught": any(v == "1" for v in rcs.values()),
                  "first_alarm": (alarms[0][:300] if alarms else ""), "wall_s": int(time.time() - t0),
                  "note": "PATCH DOES NOT APPLY" if "DOES NOT APPLY" in p.stdout else ""}
-    json.dump(res, open(out, "w"), indent=1)
+    import fcntl
+    with open(out + ".lock", "w") as lk:          # several sweeps may run side by side
+        fcntl.flock(lk, fcntl.LOCK_EX)
+        cur = json.load(open(out)) if os.path.exists(out) else {}
+        cur[name] = res[name]
+        json.dump(cur, open(out, "w"), indent=1)
     print(name, rcs, "caught" if res[name]["caught"] else "MISSED", res[name]["note"], flush=True)
